@@ -75,4 +75,26 @@ PROPS = {
         builds=[('rel', 1.0, 1.0)],
         must_observe=['node_type_comparisons', 'deferred_loads', 'deferred_docs_with_representations', 'marked_pairs_with_different_spans', 'scalar_round_trips'],
         assumptions=COMMON_ASSUME + ["the return value of parse_representation_recursive is checked in both directions only when resolution did not merge mapping keys"]),
+    'C08': dict(
+        rule=("scalar texts: exhaustively every string of length <= L over the 27-symbol alphabet of characters that occur in core-schema literals, an explicit "
+              "word list (all-caps words, boundary integers in all radices, look-alikes), random spellings and single-edit mutants; x {untagged, 4 core tags, "
+              "!!str, other yaml.org tags, foreign tags} x 5 styles, and through real documents in the four node types; oracle = hand-written recognisers for the "
+              "YAML 1.2.2 section 10.3.2 regular expressions; non-trivial = the text is a literal of some type or one deletion away from one; distinct = distinct texts"),
+        builds=[('rel', 1.0, 1.0)],
+        must_observe=['untagged_readings', 'tagged_readings', 'styled_readings', 'borrowed_owned_comparisons', 'document_loads', 'read_as_int', 'read_as_float', 'read_as_bool', 'read_as_null', 'read_as_string'],
+        assumptions=COMMON_ASSUME + ["completeness is asserted only for the set the statement names (JSON literals, decimal/0x/0o integers within 64 bits, decimal and exponent floats, .inf/.nan spellings)",
+                                     "the value of a decimal float literal is taken from f64::from_str on texts already recognised by the hand-written recogniser"]),
+    'C09': dict(
+        rule=("value trees of null/bool/i64/f64/String/Sequence/Mapping (unique keys, scalar and collection keys, empty collections, depth <= 5): strings "
+              "exhaustively up to length L over a 20-symbol alphabet in 4 positions (root, sequence item, mapping key, mapping value), a list of type-like "
+              "words and special characters, random Unicode and multi-line strings, boundary integers and floats; x {compact on/off} x {multiline_strings on/off}; "
+              "non-trivial = the tree needs a quoting / formatting decision (not only bare safe words); distinct = distinct trees"),
+        builds=[('rel', 1.0, 1.0)], must_observe=['dumps', 'round_trips_ok'],
+        assumptions=COMMON_ASSUME + ["Representation, Alias and BadValue nodes are outside the statement's domain and are not generated", "float equality treats NaN as equal to NaN (as the library's own Eq does)"]),
+    'C13': dict(
+        rule=("random JSON values (nesting mostly <= 6, some 40..200; unique keys; hostile strings as keys and values; numbers in all JSON spellings incl. "
+              "19-20 digit integers) serialised compact, pretty-printed (2/4 spaces, tabs) or with random insignificant whitespace (space, tab, LF, CR) around "
+              "every token; the generating value is the oracle; non-trivial = the value has at least one container; distinct = distinct JSON texts"),
+        builds=[('rel', 1.0, 1.0)], must_observe=['json_texts_matching', 'style_compact', 'style_pretty-tab', 'style_random-ws', 'deeply_nested_values'],
+        assumptions=COMMON_ASSUME + ["\\u escapes are generated only for non-surrogate code points; astral characters are written raw", "integers beyond 64 bits are expected as floats of the same value"]),
 }
